@@ -286,6 +286,24 @@ def run_case(ctx, case):
                                               'a KMIP %d.%d request using the Sensitive attribute (KMIP 1.4) succeeded: %s'
                                               % (v + (T.to_jsonable(T.strip(r.tree, {T.T_TIME_STAMP}))[1][1],)), None)
             elif part == 'discover-query':
+                # what Query advertises must not depend on which versions were served before
+                seen = {}
+                for v in list(SUPPORTED) + list(reversed(SUPPORTED)) + [SUPPORTED[i] for i in (5, 0, 3, 1, 4, 2, 0)]:
+                    rq = srv.send([op_query((E.QueryFunction.QUERY_OPERATIONS,))], ident, v)
+                    ctx.ev()
+                    if rq.error is None and rq.ok():
+                        adv = tuple(k[2] for k in T.kids(rq.payload(), T.T_OPERATION))
+                        ctx.count('query_order_checks')
+                        for ov in adv:
+                            if OP_INTRO[O(ov)] > v:
+                                ctx.violation('query|advertises-too-new|%s|%d.%d' % ((O(ov).name,) + v),
+                                              'Query under KMIP %d.%d advertises %s (KMIP %d.%d) after other versions were served'
+                                              % (v + (O(ov).name,) + OP_INTRO[O(ov)]), None)
+                        if v in seen and seen[v] != adv:
+                            ctx.violation('query|answer-depends-on-history|%d.%d' % v,
+                                          'Query under KMIP %d.%d advertised %d operations first and %d later on the same engine'
+                                          % (v + (len(seen[v]), len(adv))), None)
+                        seen.setdefault(v, adv)
                 for v in SUPPORTED:
                     if v >= (1, 1):
                         r = srv.send([op_discover_versions()], ident, v)
